@@ -33,3 +33,42 @@ func TestDebugTrace(t *testing.T) {
 		_ = x
 	})
 }
+
+// TestDebugEnumConvoy enumerates all schedules of generated "release race" episodes (development aid for seed e04).
+func TestDebugEnumConvoy(t *testing.T) {
+	if os.Getenv("VERIF_DEBUG_ENUM") == "" {
+		t.Skip()
+	}
+	tried := 0
+	rapid.Check(t, func(rt *rapid.T) {
+		c := GenHistory(rt, c04Params)
+		if !c.Lag {
+			return
+		}
+		last := -1
+		for i, op := range c.Ops {
+			if op.K == "episode" && len(op.Sub) == 4 && op.Sub[2].K == "synclister" {
+				last = i
+				break
+			}
+		}
+		if last < 0 {
+			return
+		}
+		c.Ops = c.Ops[:last+1]
+		c.FaultAt = nil
+		tried++
+		f := enumerate(c, func() []Observer { return []Observer{&ObsC04{}} })
+		if f != nil {
+			fmt.Printf("FOUND after %d episodes: %s %s\n", tried, f.Sig, f.Msg)
+			for _, l := range f.Trace {
+				if len(l) > 600 {
+					l = l[:600]
+				}
+				fmt.Println(l)
+			}
+			rt.Fatalf("found")
+		}
+	})
+	fmt.Println("episodes enumerated:", tried)
+}
